@@ -22,6 +22,12 @@ CHECKS = {
  "C04": dict(text="Seeded search over (accelerator configuration, accfg program) pairs: the register map comes from generate_acc_op() of the current tree for seeded streamer configurations of every accelerator class; the program is lowered by convert-accfg-to-csr and executed on a CSR-level device model (registers by address, launch/busy/barrier conventions, RoCC decoder) next to the accfg-level reference under clobber, latency and CSR-garbage faults. Compared: per-field write history through the declared map, register snapshot by address at every launch (where a non-injective map shows), await behaviour, RoCC operand pairs, and that no accfg value survives.",
               note="Trusts the CSR device model written from the docstrings in accelerators/snax.py (polling conventions, status registers at launch_streamer+1/+2, clearing write 0x3c5 for hwpe_mult); barrier styles 2 and 4 (unused by any accelerator class) and gemmx mult_vals launches are not exercised; PHS accelerator built with a duck-typed PE/template; values compared mod 2^32 / 2^64.",
               tech="deterministic simulation of the lowered CSR program against a device model with seeded latency / CSR-garbage / clobber faults; refinement of the accfg-level history through the declared register map", ref="5 C04"),
+ "C13": dict(text="Seeded search over schedules: the function produced by insert-sync-barrier (optionally followed by dispatch-regions) is executed by 2-4 simulated cores on shared symbolic memory; a seeded scheduler decides every interleaving, stall and DMA/kernel burst split. A barrier-epoch race monitor checks every memory cell online, the barrier model detects deadlock, and final buffer contents plus everything each copy/kernel read are compared with the sequential single-core reference.",
+              note="Trusts the cluster model in /verif (A4-A6: non-atomic multi-burst copies/kernels, all-core barrier, collective allocs), whole-buffer operands (dependencies through subviews/aliases are not generated), buffers of 4 elements, <=16 statements, nesting<=3, trip counts 0..3.",
+              tech="deterministic multi-core simulation with seeded scheduler (interleavings, stalls, burst sizes); race monitor + deadlock invariant + refinement against sequential reference", ref="5 C13"),
+ "C14": dict(text="Seeded search: the function produced by dispatch-regions{nb_cores=N} (N=2..5; thorough also function-constant-pinning) is executed by all N simulated cores; each core's history of executed tagged operations with evaluated operands must equal the original sequential history filtered by the dispatch rule (restated independently in /verif), and no schedule may deadlock at a barrier.",
+              note="Trusts the interpreter and cluster model; single-block functions with scf control flow; interleavings are randomised only because the deadlock invariant depends on them (the history oracle does not).",
+              tech="deterministic multi-core simulation; per-core history refinement against the filtered sequential reference, deadlock invariant", ref="5 C14"),
  "C06": dict(text="Seeded search as C01 with the subject accfg-config-overlap applied to traced / deduplicated programs, compared against its own input only on environments where that input was right and its state links truthful; also static SSA dominance and run-time undefined-value detection. One genuine defect is recorded as known finding KF-C06-1.",
               note="As C01; large latencies make moved setups execute inside the accelerator's busy window (probe setup-while-busy); known finding KF-C06-1 masks launch-snapshot mismatches only in programs whose loop body has two setups of one accelerator followed by a later setup of it, with dedup before overlap.",
               tech="deterministic simulation (reference vs overlapped program) with seeded clobber/latency faults; history refinement + dominance oracle", ref="5 C06"),
